@@ -12,11 +12,11 @@ or simply `run_seq_ledger(ctx, drv)` which does all of it.
 
 Real trace (harness/ledger.hpp): `a<id>:<usable bytes>` / `f<id>` in program order; ids are global to the
 harness process, so they are renumbered per line by order of allocation before anything is compared.
-Model trace (driver op `seqled-array i|seqled-string <w>|seqled-stream <w> <x|s>`): same syntax, ids
-from 1, sizes = requested bytes.  Compared: number and order of events, which allocation each `free`
-releases; sizes only as real >= requested.  Array<String<char>> (owning items: one block per item) and
-StringView (no allocation at all) have no model trace; their real traces are only replayed through the
-Lean `Ledger.run` (`ledcheck`), like every other line."""
+Model trace (driver op `seqled-array i|s`, `seqled-string <w>`, `seqled-stream <w> <x|s>`): same syntax,
+ids from 1, sizes = requested bytes.  Compared: number and order of events, which allocation each `free`
+releases; sizes only as real >= requested.  `seqled-array s` is Array<String<char>> (owning items: one
+block per item with storage).  StringView allocates nothing and has no model trace; its real traces are
+only replayed through the Lean `Ledger.run` (`ledcheck`), like every other line."""
 import re
 from vlib import core
 from checks import c14
@@ -109,8 +109,8 @@ def show(ev, sizes=True):
 def model_line(line):
     """The driver line that yields the model trace, or None when the container has no ledger model."""
     t = line.split(" ")
-    if t[0] == "seq-array" and t[1] == "i":
-        return "seqled-array i " + t[2]
+    if t[0] == "seq-array" and t[1] in ("i", "s"):
+        return "seqled-array %s %s" % (t[1], t[2])
     if t[0] == "seq-string":
         return "seqled-string %s %s" % (t[1], t[2])
     if t[0] == "seq-stream":
@@ -182,5 +182,6 @@ def run_seq_ledger(ctx, drv):
 
 
 SEQ_LEDGER_THEOREMS = ["Qentem.Props.C16Seq." + n for n in [
-    "trace_balanced", "array_trace_balanced", "string_trace_balanced", "stream_trace_balanced", "live_set_is_owned_set"]]
+    "trace_balanced", "array_trace_balanced", "string_trace_balanced", "stream_trace_balanced", "live_set_is_owned_set",
+    "array_owning_trace_balanced", "owning_live_set_is_owned_set"]]
 SEQ_LEDGER_MODULES = ["Qentem.Props.C16Seq"]
